@@ -696,3 +696,122 @@ Proof. apply (top_parse_print MPlain toks_rt p_rt wf_rt good_rt p_rt_complete). 
 Theorem rt_parse_sound s a : parse_rt s = Some a ->
   wf_rt a = true /\ exists ws, blanks ws = true /\ List.length ws = S (List.length (toks_rt a)) /\ s = print_rt a ws.
 Proof. apply (top_parse_sound MPlain toks_rt p_rt wf_rt). exact p_rt_sound. Qed.
+
+(* ------------------------------------------------------------------ consequences (any grammar) *)
+
+Section Consequences.
+  Context {A : Type}.
+  Variables (parse : string -> option A) (print : A -> list string -> string) (wf : A -> bool).
+  Hypothesis parse_print : forall a ws, wf a = true -> blanks ws = true -> parse (print a ws) = Some a.
+  Hypothesis parse_sound : forall s a, parse s = Some a -> wf a = true /\ exists ws, blanks ws = true /\ s = print a ws.
+
+  (* insignificant whitespace is insignificant *)
+  Lemma ws_independent a ws1 ws2 : wf a = true -> blanks ws1 = true -> blanks ws2 = true ->
+    parse (print a ws1) = parse (print a ws2).
+  Proof. intros. rewrite !parse_print; auto. Qed.
+
+  (* two different structures are never written the same way: the text determines the structure *)
+  Lemma print_injective a b ws1 ws2 : wf a = true -> wf b = true -> blanks ws1 = true -> blanks ws2 = true ->
+    print a ws1 = print b ws2 -> a = b.
+  Proof.
+    intros Ha Hb H1 H2 E. pose proof (parse_print a ws1 Ha H1) as P. rewrite E, parse_print in P; auto. now inversion P.
+  Qed.
+
+  (* text that is not the writing of a well-formed structure is rejected (nothing is partially parsed) *)
+  Lemma outside_rejected s : (forall a ws, wf a = true -> blanks ws = true -> s <> print a ws) -> parse s = None.
+  Proof.
+    intros H. destruct (parse s) as [a|] eqn:E; auto.
+    destruct (parse_sound _ _ E) as (Hwf & ws & Hb & Es). exfalso. eapply H; eauto.
+  Qed.
+
+  (* accepted text is exactly the image of print *)
+  Lemma accepted_iff s a : parse s = Some a <-> (wf a = true /\ exists ws, blanks ws = true /\ s = print a ws).
+  Proof.
+    split; [apply parse_sound|]. intros (Hwf & ws & Hb & ->). now apply parse_print.
+  Qed.
+End Consequences.
+
+Lemma drop_len {A} (parse : string -> option A) (print : A -> list string -> string) (wf : A -> bool) (toks : A -> list token) :
+  (forall s a, parse s = Some a -> wf a = true /\ exists ws, blanks ws = true /\ List.length ws = S (List.length (toks a)) /\ s = print a ws) ->
+  forall s a, parse s = Some a -> wf a = true /\ exists ws, blanks ws = true /\ s = print a ws.
+Proof. intros H s a E. destruct (H s a E) as (Hw & ws & Hb & _ & Es). eauto. Qed.
+
+Definition eq_sound' := drop_len _ _ _ _ eq_parse_sound.
+Definition dir_sound' := drop_len _ _ _ _ dir_parse_sound.
+Definition rt_sound' := drop_len _ _ _ _ rt_parse_sound.
+Definition st_sound' := drop_len _ _ _ _ st_parse_sound.
+Definition lv_sound' := drop_len _ _ _ _ lv_parse_sound.
+
+Definition eq_accepted_iff := accepted_iff parse_eq print_eq wf_einsum eq_parse_print eq_sound'.
+Definition dir_accepted_iff := accepted_iff parse_dir print_dir wf_dir dir_parse_print dir_sound'.
+Definition rt_accepted_iff := accepted_iff parse_rt print_rt wf_rt rt_parse_print rt_sound'.
+Definition st_accepted_iff := accepted_iff parse_st print_st wf_st st_parse_print st_sound'.
+Definition lv_accepted_iff := accepted_iff parse_lv print_lv wf_lv lv_parse_print lv_sound'.
+
+Definition eq_print_injective := print_injective parse_eq print_eq wf_einsum eq_parse_print.
+Definition dir_print_injective := print_injective parse_dir print_dir wf_dir dir_parse_print.
+Definition rt_print_injective := print_injective parse_rt print_rt wf_rt rt_parse_print.
+Definition st_print_injective := print_injective parse_st print_st wf_st st_parse_print.
+Definition lv_print_injective := print_injective parse_lv print_lv wf_lv lv_parse_print.
+
+Definition eq_outside_rejected := outside_rejected parse_eq print_eq wf_einsum eq_sound'.
+Definition dir_outside_rejected := outside_rejected parse_dir print_dir wf_dir dir_sound'.
+Definition rt_outside_rejected := outside_rejected parse_rt print_rt wf_rt rt_sound'.
+Definition st_outside_rejected := outside_rejected parse_st print_st wf_st st_sound'.
+Definition lv_outside_rejected := outside_rejected parse_lv print_lv wf_lv lv_sound'.
+
+(* ------------------------------------------------------------------ what the views (the code's rewrites) mean *)
+
+(* negative coefficients: "-" NUMBER is the negated integer; the sign of zero and leading zeros do not matter *)
+Lemma coef_neg ds x : coef (ITimes true ds x) = (- coef (ITimes false ds x))%Z.
+Proof. reflexivity. Qed.
+Lemma coef_leading_zeros neg z ds x : all_chars (fun c => Ascii.eqb c "0"%char) z = true ->
+  coef (ITimes neg (z ++ ds)%string x) = coef (ITimes neg ds x).
+Proof. intros H. destruct neg; simpl; now rewrite value_leading_zeros. Qed.
+
+(* the view of an index term determines the variable and the signed coefficient, never the spelling *)
+Lemma view_iterm_spec t : view_iterm t = match t with IJust x => x | ITimes _ _ x => (show_Z (coef t) ++ "*" ++ x)%string end.
+Proof. destruct t; reflexivity. Qed.
+
+(* default style = pos *)
+Lemma st_default_pos x : view_st (StBare x) = view_st (StPos x) /\ st_is_coord (StBare x) = false.
+Proof. split; reflexivity. Qed.
+Lemma st_view_coord a : st_is_coord a = true <-> exists x, a = StCoord x.
+Proof. destruct a; simpl; split; intros H; try discriminate; eauto; destruct H as [y H]; discriminate. Qed.
+
+(* instance count: NAME -> 1, NAME[0..N] -> N + 1 *)
+Lemma lv_instances_spec a : lv_instances a = match a with LSingle _ => 1%N | LMultiple _ ds => (value ds + 1)%N end.
+Proof. destruct a; reflexivity. Qed.
+Lemma lv_instances_pos a : (1 <= lv_instances a)%N.
+Proof. destruct a; simpl; lia. Qed.
+
+(* ------------------------------------------------------------------ the hypotheses are satisfiable *)
+
+Definition tb : string := String (ascii_of_nat 9) EmptyString.
+
+Definition ex_einsum : einsum :=
+  mkEinsum "Z" [[IJust "m"]; [ITimes false "2" "n"; ITimes true "03" "k"]]
+    [TTimes [FTensor "A" [[ITimes true "0" "k"; IJust "m"]; [IJust "n"]]; FVar "take"];
+     TTake [FTensor "take" [[IJust "m"]]; FTensor "B" []; FVar "b"] "007"].
+Definition ex_ws : list string := [" "; ""; tb; ""; " " ++ tb; ""; ""; ""; " "; ""; ""; ""; "  "; " "]%string.
+
+Example ex_einsum_wf : wf_einsum ex_einsum = true /\ blanks ex_ws = true.
+Proof. split; reflexivity. Qed.
+Example ex_einsum_roundtrip : parse_eq (print_eq ex_einsum ex_ws) = Some ex_einsum.
+Proof. apply eq_parse_print; reflexivity. Qed.
+Example ex_einsum_view :
+  option_map view_einsum (parse_eq (print_eq ex_einsum ex_ws)) = Some "Z[m,2*n+-3*k]=A[0*k+m,n]*take+take(take[m],B[],b,7)".
+Proof. vm_compute. reflexivity. Qed.
+Example ex_take_needs_paren : parse_eq "Z[m] = take (A[m], B[m], 1)" = None /\ parse_eq "Z[m] = take(A[m], B[m], 1)" <> None.
+Proof. split; vm_compute; [reflexivity|discriminate]. Qed.
+Example ex_float_rejected : parse_eq "Z[m] = A[2.5*m]" = None /\ parse_dir "uniform_shape(4.5)" = None /\ parse_lv "PE[0..1e1]" = None.
+Proof. repeat split; vm_compute; reflexivity. Qed.
+Example ex_dir : parse_dir (print_dir (DUOcc "A" (SzInt "016")) [" "; " "; tb; ""; ""; " "]) = Some (DUOcc "A" (SzInt "016")).
+Proof. apply dir_parse_print; reflexivity. Qed.
+Example ex_rt : parse_rt (print_rt (RTuple ["K"; "M1"; "_n"]) [""; " "; ""; tb; ""; ""; ""; " "]) = Some (RTuple ["K"; "M1"; "_n"]).
+Proof. apply rt_parse_print; reflexivity. Qed.
+Example ex_st : parse_st (print_st (StCoord "coord") [tb; " "; " "]) = Some (StCoord "coord") /\ parse_st "K. pos" = None.
+Proof. split; [apply st_parse_print; reflexivity|vm_compute; reflexivity]. Qed.
+Example ex_lv : parse_lv (print_lv (LMultiple "PE" "015") [""; " "; " "; ""; " "]) = Some (LMultiple "PE" "015")
+               /\ lv_instances (LMultiple "PE" "015") = 16%N /\ parse_lv "PE[0 ..15]" = None.
+Proof. split; [apply lv_parse_print; reflexivity|split; vm_compute; reflexivity]. Qed.
